@@ -187,6 +187,9 @@ func (p *Parser) Error(msg string, token *Token) *Error {
 			// Set to last token
 			if len(p.tokens) > 0 {
 				token = p.tokens[len(p.tokens)-1]
+			} else {
+				// No tokens at all (arguments of a tag that has none): the tag's name
+				token = p.lastToken
 			}
 		}
 	}
